@@ -167,8 +167,6 @@ def run_mixed_case(seed, i, tier, K=None, compare_schedules=False):
         plan = core.random_plan(prng, len(srcs), budget=6_000_000)
         plan.hashseed = rng.getrandbits(32)
         res = core.execute(scn, plan)
-        if res.timed_out:
-            res = core.execute(scn, plan, wall_cap=120.0)
         tr = res.trace
         cr.runs += 1
         cr.steps += tr.steps
@@ -227,8 +225,6 @@ def run_case(seed, i, tier):
         plan = core.random_plan(prng, nw, budget=budget)
         plan.hashseed = hashseed
         res = core.execute(scn, plan)
-        if res.timed_out:
-            res = core.execute(scn, plan, wall_cap=120.0)
         cr.runs += 1
         tr = res.trace
         cr.steps += tr.steps
